@@ -65,11 +65,8 @@ func (t *Timer) Reset(d Duration) bool {
 	if t.real != nil {
 		return t.real.Reset(d)
 	}
+	// pre-Go-1.23 semantics: Reset does not drain an expiry already delivered to the channel
 	was := vsched.TimerStop(t.C)
-	select {
-	case <-t.C:
-	default:
-	}
 	vsched.TimerNew(t.C, d)
 	return was
 }
